@@ -81,5 +81,44 @@ pub fn programs(r: &mut Rng) -> Vec<Feat> {
     out.push(Feat { name: "list-ops",
         incan: format!("def main() -> None:\n    mut xs = [{a}, {b}, {c}]\n    xs.append(7)\n    print(len(xs))\n    print(xs.contains({b}))\n    print(xs.contains(1000))\n    last = xs.pop()\n    print(last)\n    print(len(xs))\n    print(sum(xs))\n    print(min(xs))\n    print(max(xs))\n    ys = sorted(xs)\n    print(ys[0])\n    print(ys[-1])\n    grid = [[1, 2], [3, 4, 5]]\n    print(len(grid[1]))\n    print(grid[1][2] + grid[0][0])\n"),
         python: format!("{PY_PRELUDE}xs = [{a}, {b}, {c}]\nxs.append(7)\nshow(len(xs))\nshow({b} in xs)\nshow(1000 in xs)\nlast = xs.pop()\nshow(last)\nshow(len(xs))\nshow(sum(xs))\nshow(min(xs))\nshow(max(xs))\nys = sorted(xs)\nshow(ys[0])\nshow(ys[-1])\ngrid = [[1, 2], [3, 4, 5]]\nshow(len(grid[1]))\nshow(grid[1][2] + grid[0][0])\n") });
+    // 17. list slices with seeded bounds and steps (negative ones included)
+    {
+        let triples: Vec<(Option<i64>, Option<i64>, Option<i64>)> = (0..6).map(|_| {
+            let o = |r: &mut Rng, lo: i64, hi: i64| if r.chance(1, 4) { None } else { Some(r.range(lo, hi)) };
+            let step = if r.chance(1, 3) { None } else { Some(*r.pick(&[1i64, 2, 3, -1, -2, -3])) };
+            (o(r, -8, 8), o(r, -8, 8), step)
+        }).collect();
+        let f = |x: Option<i64>| x.map(|v| v.to_string()).unwrap_or_default();
+        let mut inc = String::from("def main() -> None:\n    xs = [10, 11, 12, 13, 14, 15, 16]\n");
+        let mut py = format!("{PY_PRELUDE}xs = [10, 11, 12, 13, 14, 15, 16]\n");
+        for (i, (s0, e0, k0)) in triples.iter().enumerate() {
+            let sl = match k0 { Some(k) => format!("{}:{}:{}", f(*s0), f(*e0), k), None => format!("{}:{}", f(*s0), f(*e0)) };
+            inc.push_str(&format!("    y{i} = xs[{sl}]\n    print(len(y{i}))\n    for v in y{i}:\n        print(v)\n"));
+            py.push_str(&format!("y{i} = xs[{sl}]\nshow(len(y{i}))\nfor v in y{i}:\n    show(v)\n"));
+        }
+        out.push(Feat { name: "list-slices", incan: inc, python: py });
+    }
+    // 18. float and mixed arithmetic with operands of both signs, binary and compound forms, observed through
+    // comparisons with the value Python's definition gives (integral floats print differently in the two languages)
+    {
+        let fa = *r.pick(&[-7.5f64, 7.5, -2.25, 5.5, -0.75]);
+        let fb = *r.pick(&[2.0f64, -2.0, 0.5, -1.5]);
+        let ib = *r.pick(&[2i64, -2, 3, -3]);
+        let pymod = |x: f64, y: f64| x - (x / y).floor() * y;
+        let pyfd = |x: f64, y: f64| (x / y).floor();
+        let inc = format!("def main() -> None:\n    a: float = {fa:?}\n    b: float = {fb:?}\n    k: int = {ib}\n    print(a % b == {m1:?})\n    print(a // b == {d1:?})\n    print(a % k == {m2:?})\n    print(a // k == {d2:?})\n    mut c: float = a\n    c %= b\n    print(c == {m1:?})\n    mut d: float = a\n    d //= k\n    print(d == {d2:?})\n    print(a / b > 0.0)\n",
+            m1 = pymod(fa, fb), d1 = pyfd(fa, fb), m2 = pymod(fa, ib as f64), d2 = pyfd(fa, ib as f64));
+        let python = format!("{PY_PRELUDE}a = {fa:?}\nb = {fb:?}\nk = {ib}\nshow(a % b == {m1:?})\nshow(a // b == {d1:?})\nshow(a % k == {m2:?})\nshow(a // k == {d2:?})\nc = a\nc %= b\nshow(c == {m1:?})\nd = a\nd //= k\nshow(d == {d2:?})\nshow(a / b > 0.0)\n",
+            m1 = pymod(fa, fb), d1 = pyfd(fa, fb), m2 = pymod(fa, ib as f64), d2 = pyfd(fa, ib as f64));
+        out.push(Feat { name: "float-arithmetic", incan: inc, python });
+    }
+    // 19. mutation of loop elements in every branch of an if / elif / else inside the loop
+    out.push(Feat { name: "for-element-mutation",
+        incan: format!("model P:\n    v: int\n    tag: int\n\ndef main() -> None:\n    mut ps = [P(v={a}, tag=0), P(v={b}, tag=0), P(v={c}, tag=0), P(v=0, tag=0)]\n    for p in ps:\n        if p.v > {b}:\n            print(p.v)\n        elif p.v < 0:\n            p.tag = 2\n        elif p.v == 0:\n            p.v = 100\n        else:\n            p.tag = 3\n    for p in ps:\n        print(p.v)\n        print(p.tag)\n"),
+        python: format!("{PY_PRELUDE}class P:\n    def __init__(self, v, tag):\n        self.v = v; self.tag = tag\n\nps = [P({a}, 0), P({b}, 0), P({c}, 0), P(0, 0)]\nfor p in ps:\n    if p.v > {b}:\n        show(p.v)\n    elif p.v < 0:\n        p.tag = 2\n    elif p.v == 0:\n        p.v = 100\n    else:\n        p.tag = 3\nfor p in ps:\n    show(p.v)\n    show(p.tag)\n") });
+    // 20. field defaults: a defaulted field declared before a required one, constructor calls that omit them
+    out.push(Feat { name: "field-defaults",
+        incan: format!("model V:\n    major: int = {b}\n    minor: int\n    label: str = \"rc\"\n\nclass S:\n    n: int = {a}\n    on: bool = True\n\n    def total(self) -> int:\n        return self.n + 1\n\ndef main() -> None:\n    v = V(minor={c})\n    w = V(major=9, minor={c}, label=\"x\")\n    print(v.major)\n    print(v.minor)\n    print(v.label)\n    print(w.major)\n    print(w.label)\n    s = S()\n    print(s.n)\n    print(s.on)\n    print(s.total())\n    t = S(n=5)\n    print(t.n)\n    print(t.on)\n"),
+        python: format!("{PY_PRELUDE}class V:\n    def __init__(self, minor, major={b}, label='rc'):\n        self.major = major; self.minor = minor; self.label = label\n\nclass S:\n    def __init__(self, n={a}, on=True):\n        self.n = n; self.on = on\n    def total(self):\n        return self.n + 1\n\nv = V(minor={c})\nw = V(major=9, minor={c}, label='x')\nshow(v.major)\nshow(v.minor)\nshow(v.label)\nshow(w.major)\nshow(w.label)\ns = S()\nshow(s.n)\nshow(s.on)\nshow(s.total())\nt = S(n=5)\nshow(t.n)\nshow(t.on)\n") });
     out
 }
